@@ -2,17 +2,22 @@ package openapi
 
 import (
 	"github.com/jsightapi/jsight-api-core/catalog"
+	"github.com/jsightapi/jsight-api-core/notation"
 )
 
 type ComponentsSchemas map[string]schemaObject
 
-func newSchemas(tt *catalog.UserTypes) ComponentsSchemas {
+func newSchemas(tt *catalog.UserTypes) (ComponentsSchemas, Error) {
 	if tt.Len() == 0 {
-		return nil
+		return nil, nil
 	}
 
 	ss := make(ComponentsSchemas, tt.Len())
-	_ = tt.Each(func(name string, ut *catalog.UserType) error {
+	err := tt.Each(func(name string, ut *catalog.UserType) error {
+		if ut.Schema.Notation() == notation.SchemaNotationEmpty {
+			// there is no schema object for "no content"
+			return newErr("user type " + name + ": notation 'empty' cannot be represented by a component schema")
+		}
 		typeSchemaObject := schemaObjectFromExchangeSchema(ut.Schema)
 		typeSchemaObject.SetDescription(ut.Annotation)
 
@@ -20,8 +25,11 @@ func newSchemas(tt *catalog.UserTypes) ComponentsSchemas {
 
 		return nil
 	})
+	if err != nil {
+		return nil, castErr(err)
+	}
 
-	return ss
+	return ss, nil
 }
 
 // all names in JSight start with `@`
